@@ -308,7 +308,8 @@ func (c *FnCtx) get(st *State, comp string) Term {
 			}
 			return t
 		}
-		if s.havoc && (s.keep == nil || !s.keep(comp)) {
+		if s.havoc && (s.keep == nil || !s.keep(comp)) && !strings.HasPrefix(comp, "lghost$") {
+			// (ghost variables of the function under verification are not memory: no call changes them)
 			t := c.freshComp(comp)
 			s.m[comp] = t
 			if comp == "$alloc" && s.parent != nil {
